@@ -679,7 +679,7 @@ Qed.
 (* a run without error of a plan that is not a lone builtin is: the pipes, then run_stages *)
 Variable fail_at : nat -> bool.
 Lemma run_pipeline_stages : forall pl sh,
-  is_single_builtin pl = false ->
+  runs_in_shell pl = false ->
   res_error (run_pipeline v fail_at openable pl sh) = false ->
   exists pipes capo cape sh',
     cap_ok (p_capture pl) capo cape /\ S (length pipes) = length (p_stages pl) /\
@@ -719,7 +719,7 @@ Definition std_ok (T0 : table) (i0 o0 e0 : obj) : Prop :=
 
 Theorem pipeline_kids : forall pl sh i0 o0 e0,
   std_ok (tab sh) i0 o0 e0 ->
-  is_single_builtin pl = false ->
+  runs_in_shell pl = false ->
   let r := run_pipeline v fail_at openable pl sh in
   res_error r = false ->
   kids_ok (kid_spec (lookup (tab sh)) i0 o0 e0 (length (p_stages pl) - 1) (p_capture pl)) 0 (p_stages pl) (res_kids r).
